@@ -25,6 +25,15 @@ props = {
  "C08": dict(
    text="16 closed theorems over metadata of any size (lists of sources, entities, descriptors, endpoints; induction): c08_destinations_from_metadata (forall metadata and operation - IdP answering a request, pick_binding, _sso_location, prepare_for_(negotiated_)authenticate, do_logout over any IdP list, verify_return - whatever is selected is a published (binding, location) pair of the party concerned, chosen by the request's URL/index when given), c08_pick_refuses_url/_index (unregistered URL/index => exception, never a destination), c08_sso_sound, c08_slo_sound, c08_disco_sound/_complete/_exact, c08_binding_origin, c08_spec_reflect, c08_disco_v0_refuted (the pinned snapshot's inverted verify_return; repaired by a fix: commit). Correspondence: ~3700 cases over 20 random metadata worlds incl. the complete URL x index x ProtocolBinding product, real Server.response_args / pick_binding, Saml2Client.prepare_for_authenticate / do_logout (prepared HTTP message inspected) and DiscoveryServer.verify_return.",
    note="Metadata modelled as loaded (mdie strips attribute values); completeness theorems are single-source (multi-source fall-through is C11's subject); stub transport for logout.", design="6/C08"),
+ "C10": dict(
+   text="11 closed theorems, universally quantified over the regex semantics (rmatch) and the entity-category tables (ectab): c10_release_subset (released names/values/multiplicities are a sub-multiset of the identity, no hypothesis), c10_release_allowed, c10_caller_unchanged (the caller's identity is never altered), c10_missing_required_is_error, c10_policy_level (the whole property for Policy.filter/restrict/apply_policy), c10_guarded (every entry point outside the two open finding classes), c10_setup_assertion_strict, c10_spec_reflect (boolean spec = Prop spec), and the refutations c10_server_release_refuted / c10_nostore_refuted that exhibit the two open findings C10-F1 (best_effort=True hard-coded: MissingValue leaves the unfiltered identity) and C10-F2 (entity categories without metadata store fail open). Entity-category RELEASE tables and the abbreviation table are regenerated from the live modules on every run. Correspondence: ~3100 cases (random identities x policies x requester metadata; Policy.filter/restrict/apply_policy directly and Server.create_authn_response end to end).",
+   note="Regular expressions enter as a boolean matrix computed by Python re in the harness (regex engine not modelled); open findings C10-F1, C10-F2 are reported as KNOWN-FINDING lines (known_findings.json).", design="6/C10"),
+ "C15": dict(
+   text="12 closed theorems for every ideal signature scheme (Section hypotheses ideal: verify_iff, cert_inj, sign_inj; satisfiable: c15_ideal_satisfiable): octets_injective (the signed octet string determines direction, message value, presence and value of RelayState, SigAlg - from the percent-encoding alphabet lemma over all byte strings), c15_verify (a URL signed by k verifies under c iff c = cert_of k, for every message/RelayState/allowed algorithm), c15_tamper (whatever verifies under the signer's certificate has the four parameters unchanged, for any presented Signature parameter that is not the base64 text of another signature of the signer), c15_sound, c15_allow, c15_unsupported, c15_property (whole spec), c15_request (Request._loads on Redirect), c15_spec_reflect, c15_tables (regenerated SIG_ALLOWED_ALG / SIGNER_ALGS / REQ_ORDER / RESP_ORDER obligations), c15_f1_v0_refuted (the pinned snapshot's lenient base64 decoding of Signature; repaired by fix: 9a4284f6). Correspondence: ~2200 cases with real RSA (5 algorithms + disallowed/unknown URIs, both directions, single-parameter mutation operators, right and wrong keys, through pack.http_redirect_message / Entity.apply_binding / verify_redirect_signature / Request._loads).",
+   note="Signatures idealised (hypotheses named in each statement); zlib outside the model (the deflated value is an input).", design="6/C15"),
+ "C17": dict(
+   text="27 closed theorems: generic ones for EVERY converter set / statement / value list (c17_send, c17_receive_exact, c17_unknown_dropped, c17_unknown_allowed, c17_send_receive for any symmetric map, c17_send_receive_set, c17_round, from_dict/adjust symmetry for one-directional maps, reflection of the three boolean specs) and regenerated table theorems over the five bundled maps as translated from the live modules on every run (c17_bundled_from_dict, c17_bundled_symmetric, c17_bundled_pairs_ok_except, c17_bundled_lost_exactly: exactly the 18 known (converter, attribute) pairs are lost), plus refutations that exhibit the open findings C17-F1 (adfs_v1x/adfs_v20 share the unspecified name format) and C17-F2 (eduPersonTargetedID unwrapping). Correspondence: ~6400 cases: every (map, attribute) pair x random value lists x allow_unknown_attributes x mixed statements through the real from_local / to_local / AttributeConverter, random custom maps.",
+   note="ASCII lower-casing (generators avoid cased non-ASCII letters in attribute names); open findings C17-F1, C17-F2 are reported as KNOWN-FINDING lines.", design="6/C17"),
 }
 checks = []
 for pid, d in sorted(props.items()):
